@@ -331,6 +331,13 @@ class Task:
         self.src = ctx.source(self.contract.file)
         self.fn, self.defcls = self.src.find(self.contract.source)
         self.label = cname if receiver in (None, self.defcls) else f"{cname}@{receiver}"
+        if receiver and self.defcls and receiver != self.defcls:
+            # the method is verified for a subclass receiver: the subclass must really inherit it (an override would be what runs)
+            for n in ast.walk(self.src.tree):
+                if isinstance(n, ast.ClassDef) and n.name == receiver.split(".")[-1]:
+                    if any(isinstance(m, ast.FunctionDef) and m.name == self.fn.name for m in n.body) \
+                            and not any(cc.source == f"{receiver}.{self.fn.name}" for cc in ctx.contracts.values()):      # (fine if the override is under contract itself: this is then its super() target)
+                        raise Unsupported(f"{receiver} overrides {self.fn.name}() but the contract verifies {self.contract.source} for that receiver (contract/code mismatch)")
         self.obligations = []
         self.paths = 0
         self.feas_checks = 0
